@@ -77,11 +77,11 @@ func main() {
 	kind := flag.String("kind", "fnv1a", "fnv1a | fnv1 | md5-8 | sha1-8 | sha256-8")
 	flag.Parse()
 	f, ok := map[string]func(uint64) uint64{
-		"fnv1a":      fnv1a,
-		"fnv1":       fnv1,
-		"md5-8":      func(x uint64) uint64 { k := key(x); s := md5.Sum(k[:]); return binary.BigEndian.Uint64(s[:]) },
-		"sha1-8":     func(x uint64) uint64 { k := key(x); s := sha1.Sum(k[:]); return binary.BigEndian.Uint64(s[:]) },
-		"sha256-8":   func(x uint64) uint64 { k := key(x); s := sha256.Sum256(k[:]); return binary.BigEndian.Uint64(s[:]) },
+		"fnv1a":    fnv1a,
+		"fnv1":     fnv1,
+		"md5-8":    func(x uint64) uint64 { k := key(x); s := md5.Sum(k[:]); return binary.BigEndian.Uint64(s[:]) },
+		"sha1-8":   func(x uint64) uint64 { k := key(x); s := sha1.Sum(k[:]); return binary.BigEndian.Uint64(s[:]) },
+		"sha256-8": func(x uint64) uint64 { k := key(x); s := sha256.Sum256(k[:]); return binary.BigEndian.Uint64(s[:]) },
 	}[*kind]
 	if !ok {
 		fmt.Println("unknown kind")
